@@ -391,7 +391,8 @@ def apply_edits_to_markdown(
 
         start, end = _find_match_in_text(markdown_text, target)
 
-        if start == -1:
+        if start == -1 or start >= end:
+            # (a fuzzy match can shrink to nothing, e.g. '__' on 'a_b': that is no match)
             logger.warning(f"Skipping edit {idx}: target_text not found: '{target[:50]}...'")
             continue
 
